@@ -243,6 +243,7 @@ class Exec:
         self.const_cache = {}
         self.merge_pat = None  # regex over body names whose calls are summarised by merging their return paths
         self.merged_calls = 0
+        self.disambiguate = None  # fn(callee text, first body, caller body) -> Body for names printed for several bodies
         self.nfresh = 0
         self.ncell = 0
         self.queries = 0
@@ -1242,6 +1243,11 @@ class Exec:
                         yield Outcome("return", st2, value=v)
                 return
         b = self.resolve(callee, getattr(caller, "crate", None))
+        if b is not None and getattr(b, "ambiguous", False) and b.impl_at is None:
+            pick = self.disambiguate(callee, b, caller) if self.disambiguate else None
+            if pick is None:
+                raise MirUnsupported("several bodies are printed under the name `%s` (same function name in different modules)" % b.name)
+            b = pick
         if b is not None:
             if self.merge_pat is not None and self.merge_pat.search(b.name):
                 merged = self._merged_call(st, b, args)
